@@ -11,8 +11,8 @@ CLAIMED = {
         "text": "bounded symbolic checking: for every 56- and 112-bit frame (all bits and hex cases symbolic) the real "
                 "crc() equals the LFSR remainder mod 0x1FFF409, encode=True ignores the parity field and closes to "
                 "zero, crc is GF(2)-linear, and no error of weight 1-5 or burst <= 24 bits has a zero syndrome; the "
-                "demodulator admits a DF17 frame only with zero remainder. Not an unbounded proof: lengths are the "
-                "two legal ones.",
+                "bit-serial crc_legacy() computes the same remainder / parity; the demodulator admits a DF17 frame only "
+                "with zero remainder. Not an unbounded proof: lengths are the two legal ones.",
         "design_ref": "DESIGN.md section 5 C01",
         "note": NOTE,
         "technique": T_SYMX + "; GF(2)-affine normal form for CRC bits; symbolic column indices into the syndrome "
